@@ -8,37 +8,6 @@ from . import common
 from . import textrules as R
 
 
-def rule_parser_siblings(rep, rule="H-siblings"):
-    """The long and the short parser agree on what they produce (R-H)."""
-    idx = common.ctx()
-    a, b = idx.get(R.LONG_R), idx.get(R.SHORT_R)
-
-    def facts(fn):
-        f = {}
-        dicts = [n for n in ast.walk(fn.node) if isinstance(n, ast.Dict) and any(isinstance(k, ast.Constant) and k.value == "entries" for k in n.keys)]
-        f["tier keys"] = sorted(k.value for k in dicts[0].keys) if dicts else None
-        f["tier span conversion"] = sorted({norm(v) .split("(")[0] for d in dicts for k, v in zip(d.keys, d.values) if k.value in ("xmin", "xmax")})
-        tops = [n for n in ast.walk(fn.node) if isinstance(n, ast.Dict) and any(isinstance(k, ast.Constant) and k.value == "tiers" for k in n.keys)]
-        f["textgrid keys"] = sorted(k.value for k in tops[0].keys) if tops else None
-        f["entry constructors"] = sorted({norm(n.func) for n in ast.walk(fn.node) if isinstance(n, ast.Call) and norm(n.func) in ("Interval", "Point")})
-        f["span parser"] = sorted({norm(n.func) for n in ast.walk(fn.node) if isinstance(n, ast.Call) and norm(n.func).endswith("strToIntOrFloat")})
-        # are entry labels stripped of surrounding blanks?  (operation sequence of each label payload)
-        stripped = []
-        for s_ in tf.stmts_in_order(fn):
-            for n in ast.walk(s_) if isinstance(s_, (ast.Expr, ast.Assign)) else []:
-                if isinstance(n, ast.Call) and norm(n.func) in ("Interval", "Point") and n.args:
-                    info = tf.payload_ops(idx, fn, s_, n.args[-1])
-                    stripped.append((norm(n.func), "strip" in info["ops"] if info else None))
-        f["entry labels stripped"] = sorted(stripped)
-        f["textgrid span conversion"] = sorted({norm(n.value.func) for n in ast.walk(fn.node) if isinstance(n, ast.Assign) and norm(n.targets[0]) in ("tgMin", "tgMax") and isinstance(n.value, ast.Call)})
-        return f
-    fa, fb = facts(a), facts(b)
-    for k in fa:
-        rep.check(fa[k] == fb[k] and fa[k] not in (None, []), rule, "long/short parser", k, ok="both parsers: %s" % (fa[k],),
-                  bad="the two parsers disagree: long %s, short %s -- long and short encodings of the same data would open to different Textgrids" % (fa[k], fb[k]))
-    rep.floor(rule, 6)
-
-
 def run(rep, tier):
     rep.rule("C-num-regex / C-num-conv", "numeric regexes and the span converter accept the writer's (and the specification's) plain and exponent notation")
     rep.rule("C-scan", "delimiter scans over raw text cannot match inside an escaped payload")
